@@ -1,5 +1,6 @@
 import Oracle.Util
 import MobiusModel.FileOps
+import MobiusModel.AcctLoader
 /-! Oracle handlers for C07 (model functions exposed on the line protocol). -/
 namespace Oracle
 open Mobius Mobius.PathAlg Mobius.PathStr Mobius.FS Mobius.FileOps
@@ -84,7 +85,33 @@ def fsStep (a : List String) : String :=
       s!"R {showReply r.2} T {r.1.length}" ++ String.join (r.1.map fun e => " " ++ showEntry e)
   | _ => "bad-op"
 
+/-- `<name> <login> <legacy 0|1>` repeated. -/
+def loadEntries : List String → Option (List LoadEntry)
+  | [] => some []
+  | n :: l :: m :: rest => (loadEntries rest).map fun es => { name := hexb n, login := hexb l, migrate := m == "1", yaml := hexb l } :: es
+  | _ => none
+
+/-- `acctload <entries…>`: the accounts directory `U` holding exactly the matched files (contents = the login inside),
+    run through the model's loader → the names directly below `U` afterwards with the login each file holds. -/
+def acctLoadOp (a : List String) : String :=
+  match loadEntries a with
+  | none => "bad-op"
+  | some es =>
+    let dir : Path := [[85]]
+    let fs0 : FS := (dir, Node.dir) :: es.map fun e => (dir ++ [e.name], Node.file e.login)
+    let fs := acctLoad fs0 dir es
+    let out := fs.filterMap fun e =>
+      if e.1 = dir then none
+      else if dir <+: e.1 ∧ e.1.length = 2 then
+        match e.2 with
+        | .file d => some (toHex (e.1.getLastD []) ++ ":" ++ toHex d)
+        | _ => some (toHex (e.1.getLastD []) ++ ":?")
+      else if dir <+: e.1 then some ("deep:" ++ toHex (intercalateSlash e.1))
+      else some ("outside:" ++ toHex (intercalateSlash e.1))
+    s!"{out.length}" ++ String.join (out.map fun x => " " ++ x)
+
 def c07Handlers : List (String × Handler) := [
+  ("acctload", acctLoadOp),
   ("fsstep", fsStep),
   -- readpath <root> <pathfield|nil> <name>  →  component-level ReadPath (decoded), rendered
   ("readpath", fun (a : List String) => match a with
